@@ -83,6 +83,14 @@ func executeResolved(o *Options, hist []int) (string, []mc.Fail) {
 			before := in.fold.Clone()
 			n0 := len(got)
 			in.apply(l, false)
+			if o.Lag {
+				// lagging consumer: the hook goroutines do not get to run before the whole history has been
+				// applied; what a notification carries must have been fixed when the change was made
+				if i == len(hist)-1 {
+					rt.Quiesce()
+				}
+				continue
+			}
 			rt.Quiesce()
 			if i != len(hist)-1 {
 				continue
@@ -156,7 +164,7 @@ func executeResolved(o *Options, hist []int) (string, []mc.Fail) {
 			if n.op == constants.Delete && present {
 				bad("C16/resolved-delete-snapshot-contains-entry", "DELETE notification for %s %s@%s (step %d): the snapshot still contains the entry", n.table, n.key, n.ni, n.step)
 			}
-			if now := snapCanon(n.ribs); now != n.clone {
+			if now := snapCanon(n.ribs); now != n.clone && !o.Lag {
 				bad("C16/resolved-snapshot-changed-by-later-operations", "the snapshot delivered at step %d (%s %s %s@%s) was modified by later operations", n.step, n.op, n.table, n.key, n.ni)
 			}
 		}
